@@ -254,6 +254,34 @@ def readImage (E : Env) (sym : Sym) (ext39 : Bool) (b : Bitmap) (tryHarder : Boo
     (decodeImage (fun _ row => Row39.cbDecodeRow E.T false row) b tryHarder).map
       (fun f => ⟨.codabar, f.res.text, f.row, f.reversed, f.rotated, f.orientation⟩)
 
+/-! ## the same readers, seen through ONE row-decoder function (text and format only)
+
+  `readImage_generic` (Gzx/Proofs/Image1DScan.lean) shows `readImage` is `decodeImage` over `rowRead`, followed by `finishRead`;
+  the pose theorems are stated once over `rowRead`. -/
+
+/-- the symbology whose `DecodeRow` the scan runs: `upcAReader.Decode` scans with its EAN-13 reader -/
+def scanSym : Sym → Sym
+  | .upca => .ean13
+  | s => s
+
+/-- `DecodeRow` of the reader of `sym` (nil hints): format and text -/
+def rowRead (E : Env) (ext39 : Bool) : Sym → Int → List Bool → Res (Sym × List Nat)
+  | .ean13, rn, row => (upcRow E .ean13 rn row).map (fun r => (Sym.ofEan r.format, r.text))
+  | .ean8, rn, row => (upcRow E .ean8 rn row).map (fun r => (Sym.ofEan r.format, r.text))
+  | .upca, rn, row => (upcRow E .upca rn row).map (fun r => (Sym.ofEan r.format, r.text))
+  | .upce, rn, row => (upcRow E .upce rn row).map (fun r => (Sym.ofEan r.format, r.text))
+  | .code128, _, row => (Row128.decodeRow Row128.exactDom E.T.code128 row false).map (fun o => (.code128, o.text))
+  | .itf, _, row => (RowITF.decodeRow Row128.exactDom E.I row none).map (fun o => (.itf, o.text))
+  | .code39, _, row => (Row39.c39DecodeRow E.T false ext39 row).map (fun o => (.code39, o.text))
+  | .code93, _, row => (Row39.c93DecodeRow E.T row).map (fun o => (.code93, o.text))
+  | .codabar, _, row => (Row39.cbDecodeRow E.T false row).map (fun o => (.codabar, o.text))
+
+/-- what `Decode` does with the scan's result: `upcAReader` applies `maybeReturnResult`, the others nothing -/
+def finishRead (sym : Sym) (r : Sym × List Nat) : Res (Sym × List Nat) :=
+  match sym with
+  | .upca => (OneDRowExt.maybeReturnResult (.ok ⟨r.2, .ean13, [], []⟩)).map (fun x => (Sym.ofEan x.format, x.text))
+  | _ => .ok r
+
 /-! ## the whole path -/
 
 /-- writer → BitMatrix → (pose) → image → BinaryBitmap → reader -/
